@@ -18,6 +18,15 @@ def run_variant(chk, variant, n, depth, width):
     ops += [f"{cmd} R 0 0 0 R 0 1 1 U 0 R 0 2 2 T I 0 5 n C 2 1 10 n E C 1 2 20 n E E",
             f"{cmd} R 0 0 0 R 1 1 0 R 0 2 1 R 1 3 1 T I 0 1 n C 0 1 1 n I 1 2 n C 1 2 2 n E E E C 2 3 3 n E E",
             f"{cmd} R 0 0 3 R 0 0 2 R 0 0 1 T I 0 9 n C 2 4 40 n E E"]
+    # a callback whose result is a pointer into sandbox memory; many simultaneously live entry points (more than 32 on the
+    # bundled backends), one released, two more registered: every entry point still runs its own function
+    for sb in (0, 1):
+        for v in (0, 1, -1, 4242, 2147483647, -2147483648, chk.rng.randrange(-10 ** 9, 10 ** 9)):
+            ops.append(f"cbptr {sb} {v}")
+        big = [3, 6] if nslots <= 8 else [3, 31, 32, 33, 40, 61, 62]
+        for nn in big:
+            for u in sorted({-1, 0, nn - 1, nn // 2, chk.rng.randrange(nn)}):
+                ops.append(f"cbmany {sb} {nn} {u}")
     ops = list(dict.fromkeys(ops))
     core.differential(chk, ops, binp, cc.oracle_c12, label=f"call trees ({variant})", impl_env=cc.env_for(variant))
     return ops
